@@ -80,8 +80,9 @@ EXTS = ['', '.txt', '.txt', '.vmt', '.VTF', '.tar.gz', '.d']
 CASEMODES = ['asis', 'asis', 'asis', 'upper', 'lower', 'swap', 'title']
 
 POOL_FOLDERS = ['a', 'ab', 'Sub']
-POOL_STEMS = ['x', 'xy', 'Y']
-POOL_EXTS = ['.txt', '.txt', '']
+# 'a', 'ab', 'Sub' without extension: the same path can be a file in one member and a folder in another
+POOL_STEMS = ['x', 'xy', 'Y', 'a', 'Sub', 'ab']
+POOL_EXTS = ['.txt', '.txt', '', '']
 
 
 _ASCII_UP = {c: c.upper() for c in 'abcdefghijklmnopqrstuvwxyz'}
@@ -164,9 +165,10 @@ def fold(path: str) -> str:
     return path.replace('\\', '/').casefold()
 
 
-def normalise(paths):
+def normalise(paths, allow_clash: bool = False):
     """Make a generated path list a legal file set: unique under folding, one spelling per folded folder,
-    no path that is also a folder.  Deterministic (first occurrence wins)."""
+    no path that is also a folder.  Deterministic (first occurrence wins).  `allow_clash` keeps paths that are a
+    file here and a folder there (for a pool from which every chain member takes its own, legal, subset)."""
     folder_spelling: dict[str, str] = {}
     files: dict[str, str] = {}
     for p in paths:
@@ -183,10 +185,13 @@ def normalise(paths):
             spelled.append(known)
         full = '/'.join(spelled + [comps[-1]])
         ffull = full.casefold()
-        if ffull in files or ffull in folder_spelling or ffull in new_folders:
+        if ffull in files:
             continue
-        if any(f in files for f in list(new_folders) + [cur] if f):
-            continue        # one of its folders is an existing file
+        if not allow_clash:
+            if ffull in folder_spelling or ffull in new_folders:
+                continue
+            if any(f in files for f in list(new_folders) + [cur] if f):
+                continue        # one of its folders is an existing file
         folder_spelling.update(new_folders)
         files[ffull] = full
     return list(files.values())
@@ -665,7 +670,7 @@ def execute_chain(desc, ctx):
     """A history: constructor, then add_sys() calls interleaved with query rounds; every round is judged against the
     first-member-wins model of the chain as it is at that moment."""
     from srctools.filesys import FileSystemChain
-    pool = normalise(desc['pool'])
+    pool = normalise(desc['pool'], allow_clash=True)
     members = [Member(i, md, pool) for i, md in enumerate(desc['members'])]
     scratch = Scratch()
     try:
@@ -698,6 +703,7 @@ def execute_chain(desc, ctx):
         for m in members:
             absent += list(m.fset.paths)        # stored names are not visible through a prefixed member
             absent += [p + 'x' for p in m.fset.paths[:2]]
+            absent += list(m.fset.folders.values())     # a folder is not a file, whatever the member kind
         folder_universe = []
         seen_folders = set()
         for m, v in zip(members, final_vis):
@@ -736,6 +742,22 @@ def execute_chain(desc, ctx):
                     return m, m.fset.by_fold[fold(full)]
             return None
 
+        def note_clash(q: str, upto) -> None:
+            """Label queries where a member searched before the winner has the name as a folder, or has a file that is a
+            parent component of the name."""
+            for m in order:
+                if m is upto:
+                    break
+                full = fold((m.prefix_arg.rstrip('/') + '/' if m.prefix_arg else '') + q.replace('\\', '/'))
+                comps = full.split('/')
+                parents = {'/'.join(comps[:i]) for i in range(1, len(comps))}
+                if full in m.fset.folders or parents & set(m.fset.by_fold):
+                    ctx.label('chain:folder_file_clash')
+                    ctx.label('chain:folder_file_clash_' + m.backend)
+                    if upto is not None:
+                        ctx.label('chain:clash_' + m.backend + '_ahead_of_winner')
+                    return
+
         def check_order(step: str) -> None:
             got_order = [(s_, p_) for s_, p_ in chain.systems]
             want_order = [(systems[m.index], m.prefix_arg) for m in order]
@@ -767,11 +789,13 @@ def execute_chain(desc, ctx):
                     continue
                 if w is None:
                     ctx.label('lookup:not_yet_visible')
+                    note_clash(q, None)
                     asked_while_absent.add(fold(q))
                     expect_absent(q, step, lab)
                     continue
                 m, stored = w
                 ctx.label('lookup:' + lab)
+                note_clash(q, m)
                 facts = {'spelling': lab, 'query': q, 'winner_backend': m.backend, 'step': step}
                 pre = (f'{step}: {describe()}: {q!r} ({lab}) should come from member #{m.index} ({m.backend}, prefix '
                        f'{m.prefix_arg!r}, stored {stored!r})')
@@ -793,6 +817,7 @@ def execute_chain(desc, ctx):
                 if winner(q) is not None:
                     continue
                 ctx.label('lookup:absent')
+                note_clash(q, None)
                 asked_while_absent.add(fold(q))
                 expect_absent(q, step, 'absent')
 
@@ -1063,7 +1088,7 @@ SUBCHECKS = [
         must_hit=('has_case_dup_file', 'has_case_dup_folder', 'backend:zip', 'backend:vpk', 'chain:single',
                   'chain:zip+vpk')),
     Sub('chain', execute_chain, strategy=chain_strategy, quick=600, thorough=30000, floor=40,
-        must_hit=('chain:query_before_append', 'chain:query_before_priority_insert', 'lookup:not_yet_visible',
+        must_hit=('chain:folder_file_clash', 'chain:clash_raw_ahead_of_winner', 'chain:folder_file_clash_raw', 'chain:folder_file_clash_zip', 'chain:query_before_append', 'chain:query_before_priority_insert', 'lookup:not_yet_visible',
                   'shared_name', 'priority_insert', 'prefixed_member', 'members:4', 'walk_deduplicated',
                   'member:virtual', 'member:zip', 'member:vpk', 'member:raw', 'walk:exact', 'lookup:upper',
                   'lookup:backslash')),
